@@ -1,7 +1,263 @@
-//! C18 — not built yet.
-use lv_common::Ctx;
+//! C18 — Store insertion constraints admit exactly the legal ranges.
+//!
+//! Oracle = the property sentence, set-based:
+//!   Ok  <=> valid(a>=1, a<=b)  and  [a,b] ∩ S = ∅  and  (S = ∅ or a > max S or a-1 ∈ S or b+1 ∈ S)
+//!   flags == (a-1 ∈ S, b+1 ∈ S);   error kind = the failed clause.
+//! Three parts: exhaustive over S ⊆ {1..10} x a,b ∈ 0..=12 on `BlockRanges::check_insertion_constraints`;
+//! random u64-wide; and the `InMemoryStore::insert` call site with a real header chain over heights 1..12.
+use std::sync::OnceLock;
 
-pub fn run(_ctx: &mut Ctx) {
-    eprintln!("C18: check not built yet");
-    std::process::exit(2);
+use celestia_types::ExtendedHeader;
+use lumina_node::block_ranges::{BlockRanges, BlockRangesError};
+use lumina_node::store::{InMemoryStore, Store, StoreError, StoreInsertionError, VerifiedExtendedHeaders};
+use lv_common::prelude::*;
+use lv_gen::chain::{TimeBase, build_chain, simple_chain_spec};
+use lv_gen::ranges::{HMAX, ISet, RangesSpec, build_ranges, ranges_spec_strategy};
+
+use crate::c17::{Val, build_from_model, resolve, to_iset, val_strategy};
+
+#[derive(Clone, Copy, Debug, PartialEq, Eq)]
+pub enum Expect {
+    Ok(bool, bool),
+    Invalid,
+    Overlap,
+    NoNeighbors,
+}
+
+/// The property sentence, evaluated on sets.
+pub fn ref_insertion(s: &ISet, a: u64, b: u64) -> Expect {
+    if !(a >= 1 && a <= b) {
+        return Expect::Invalid;
+    }
+    let (a, b) = (a as u128, b as u128);
+    if !s.inter(&ISet::single(a, b)).is_empty() {
+        return Expect::Overlap;
+    }
+    let prev = s.contains(a - 1);
+    let next = s.contains(b + 1);
+    let above_all = s.max().is_none_or(|m| a > m);
+    if s.is_empty() || above_all || prev || next { Expect::Ok(prev, next) } else { Expect::NoNeighbors }
+}
+
+fn classify(got: &Result<(bool, bool), BlockRangesError>) -> Result<Expect, String> {
+    Ok(match got {
+        Ok((p, n)) => Expect::Ok(*p, *n),
+        Err(BlockRangesError::InvalidBlockRange(_)) => Expect::Invalid,
+        Err(BlockRangesError::BlockRangeOverlap(_, _)) => Expect::Overlap,
+        Err(BlockRangesError::NoAdjacentNeighbors(_)) => Expect::NoNeighbors,
+        Err(e) => return Err(format!("unexpected error kind {e:?}")),
+    })
+}
+
+fn outcome_label(s: &ISet, a: u64, e: Expect) -> &'static str {
+    match e {
+        Expect::Ok(false, false) if s.is_empty() => "ok-empty-store",
+        Expect::Ok(false, false) => "ok-new-head-with-gap",
+        Expect::Ok(true, false) if s.max().is_some_and(|m| a as u128 > m) => "ok-new-head-adjacent",
+        Expect::Ok(true, false) => "ok-left-neighbour-inner",
+        Expect::Ok(false, true) => "ok-right-neighbour",
+        Expect::Ok(true, true) => "ok-fills-gap",
+        Expect::Invalid => "err-invalid",
+        Expect::Overlap => "err-overlap",
+        Expect::NoNeighbors => "err-no-neighbours",
+    }
+}
+
+/// One evaluation of `check_insertion_constraints` against the reference. Returns the expectation.
+pub fn eval_one(obs: &mut Obs, r: &BlockRanges, s: &ISet, a: u64, b: u64, digest: u64) -> Result<Expect, Failure> {
+    let want = ref_insertion(s, a, b);
+    let nontrivial = want != Expect::Invalid && !s.is_empty();
+    obs.eval(nontrivial.then_some(digest));
+    obs.label(outcome_label(s, a, want));
+    if b == u64::MAX && want != Expect::Invalid || s.contains(HMAX) {
+        obs.label("u64-max-edge");
+    }
+    let got = r.check_insertion_constraints(a..=b);
+    let ctx = || format!("stored={:?} candidate={a}..={b}: got {got:?}, the property gives {want:?}", s.0);
+    let cls = match classify(&got) {
+        Ok(c) => c,
+        Err(e) => {
+            obs.fail("C18:error-kind", format!("{e}; {}", ctx()))?;
+            return Ok(want);
+        }
+    };
+    match (cls, want) {
+        (x, y) if x == y => {}
+        (Expect::Ok(_, _), Expect::Ok(_, _)) => obs.fail("C18:flags-wrong", ctx())?,
+        (Expect::Ok(_, _), _) => obs.fail("C18:admitted-illegal-range", ctx())?,
+        (_, Expect::Ok(_, _)) => obs.fail("C18:rejected-legal-range", ctx())?,
+        _ => obs.fail("C18:error-kind", ctx())?,
+    }
+    // the reported error must name the candidate itself
+    match &got {
+        Err(BlockRangesError::InvalidBlockRange(g)) | Err(BlockRangesError::NoAdjacentNeighbors(g)) | Err(BlockRangesError::BlockRangeOverlap(g, _)) if *g != (a..=b) => {
+            obs.fail("C18:error-kind", format!("error names another range; {}", ctx()))?
+        }
+        _ => {}
+    }
+    Ok(want)
+}
+
+// ------------------------------------------------------------------------------------------------
+// store call site: InMemoryStore::insert over a real chain 1..=12
+// ------------------------------------------------------------------------------------------------
+
+pub const CHAIN_T0: u64 = 1_700_000_000; // unix seconds of height 1
+pub const CHAIN_DT_MS: u32 = 10_000;
+
+/// a valid single-validator chain of heights 1..=12, times T0 + (h-1)*10 s (built once)
+pub fn chain12() -> &'static Vec<ExtendedHeader> {
+    static C: OnceLock<Vec<ExtendedHeader>> = OnceLock::new();
+    C.get_or_init(|| build_chain(&simple_chain_spec(0xC18, 1, 12, TimeBase::Fixed(CHAIN_T0), CHAIN_DT_MS)).headers)
+}
+
+pub fn rt() -> tokio::runtime::Runtime {
+    tokio::runtime::Builder::new_current_thread().enable_time().build().expect("tokio runtime")
+}
+
+/// store holding exactly the heights of `mask` (bits 1..=12): maximal runs inserted in ascending order
+pub async fn store_with(mask: u64) -> Result<InMemoryStore, Failure> {
+    let store = InMemoryStore::new();
+    let ch = chain12();
+    for &(a, b) in &ISet::from_mask(mask).0 {
+        let hs: Vec<ExtendedHeader> = ch[a as usize - 1..=b as usize - 1].to_vec();
+        // SAFETY: a contiguous slice of a chain that was built valid and linked
+        let v = unsafe { VerifiedExtendedHeaders::new_unchecked(hs) };
+        store.insert(v).await.map_err(|e| Failure::new("gen", format!("setup insert of {a}..={b} failed: {e}")))?;
+    }
+    Ok(store)
+}
+
+fn store_case(idx: &u16, obs: &mut Obs) -> Result<(), Failure> {
+    let m = (*idx as u64) << 1;
+    let s = ISet::from_mask(m);
+    let rt = rt();
+    rt.block_on(async {
+        let mut store = store_with(m).await?;
+        let ch = chain12();
+        for a in 1..=12u64 {
+            for b in a..=12u64 {
+                let want = ref_insertion(&s, a, b);
+                obs.eval((!s.is_empty()).then(|| (m << 16) | (a << 8) | b));
+                obs.label(outcome_label(&s, a, want));
+                let hs: Vec<ExtendedHeader> = ch[a as usize - 1..=b as usize - 1].to_vec();
+                // SAFETY: contiguous slice of a valid chain
+                let v = unsafe { VerifiedExtendedHeaders::new_unchecked(hs) };
+                let res = store.insert(v).await;
+                let after = store.get_stored_header_ranges().await.map_err(|e| Failure::new("gen", format!("get_stored_header_ranges: {e}")))?;
+                let after_m = ISet::normalise(to_iset(&after).0);
+                let ctx = || format!("InMemoryStore stored={:?} insert {a}..={b}: result {:?}, stored afterwards {:?}; the property gives {want:?}", s.0, res.as_ref().map_err(|e| e.to_string()), after_m.0);
+                match (&res, want) {
+                    (Ok(()), Expect::Ok(_, _)) => {
+                        if after_m != s.insert(a as u128, b as u128) {
+                            obs.fail("C18:store-ranges-after-insert", ctx())?;
+                        }
+                        // accepted: rebuild the stored set for the next candidate
+                        store = store_with(m).await?;
+                    }
+                    (Ok(()), _) => {
+                        obs.fail("C18:admitted-illegal-range", ctx())?;
+                        store = store_with(m).await?;
+                    }
+                    (Err(e), Expect::Ok(_, _)) => {
+                        let _ = e;
+                        obs.fail("C18:rejected-legal-range", ctx())?;
+                    }
+                    (Err(e), w) => {
+                        let kind_ok = match e {
+                            StoreError::InsertionFailed(StoreInsertionError::ConstraintsNotMet(k)) => match (k, w) {
+                                (BlockRangesError::BlockRangeOverlap(_, _), Expect::Overlap) => true,
+                                (BlockRangesError::NoAdjacentNeighbors(_), Expect::NoNeighbors) => true,
+                                (BlockRangesError::InvalidBlockRange(_), Expect::Invalid) => true,
+                                _ => false,
+                            },
+                            _ => false,
+                        };
+                        if !kind_ok {
+                            obs.fail("C18:error-kind", ctx())?;
+                        }
+                        if after_m != s {
+                            obs.fail("C18:store-changed-by-rejected-insert", ctx())?;
+                        }
+                    }
+                }
+            }
+        }
+        Ok(())
+    })
+}
+
+// ------------------------------------------------------------------------------------------------
+
+#[derive(Clone, Debug, Serialize, Deserialize)]
+pub struct Case {
+    pub stored: RangesSpec,
+    pub cands: Vec<(Val, Val, bool)>,
+}
+
+pub fn run(ctx: &mut Ctx) {
+    ctx.assume("stored sets are canonical BlockRanges built through insert_relaxed; the reference decision is the property sentence evaluated on an independent u128 interval model");
+    ctx.assume("store call site: InMemoryStore::insert with contiguous slices of one valid generated chain (heights 1..12), so neighbour verification always passes and only the range constraints decide");
+    ctx.essential(&[
+        "ok-empty-store",
+        "ok-new-head-with-gap",
+        "ok-new-head-adjacent",
+        "ok-left-neighbour-inner",
+        "ok-right-neighbour",
+        "ok-fills-gap",
+        "err-invalid",
+        "err-overlap",
+        "err-no-neighbours",
+        "u64-max-edge",
+    ]);
+
+    ctx.enumerate(
+        "small-universe",
+        "every stored set S ⊆ {1..10} (1024 items) x every candidate [a,b] with a,b in 0..=12 incl. invalid (169): decision, both flags and error kind of check_insertion_constraints vs the set-based reference. Non-trivial = valid candidate against a non-empty S; distinct by (S,a,b)",
+        true,
+        (0u16..1024).collect::<Vec<_>>(),
+        |idx, obs| {
+            let m = (*idx as u64) << 1;
+            let s = ISet::from_mask(m);
+            let r = build_from_model(&s);
+            for a in 0..=12u64 {
+                for b in 0..=12u64 {
+                    eval_one(obs, &r, &s, a, b, (m << 16) | (a << 8) | b)?;
+                }
+            }
+            Ok(())
+        },
+    );
+
+    ctx.enumerate(
+        "store-insert",
+        "every stored set S ⊆ {1..10} held by an InMemoryStore (real chain) x every valid candidate 1<=a<=b<=12 (78) inserted through Store::insert: accepted <=> reference admits, rejected with ConstraintsNotMet(kind of the failed clause) and store unchanged, accepted => stored ranges = S ∪ [a,b]. Non-trivial = S non-empty",
+        true,
+        (0u16..1024).collect::<Vec<_>>(),
+        store_case,
+    );
+
+    let cases = ctx.tier.pick(300_000, 1_500_000);
+    ctx.proptest(
+        "random-u64",
+        "random canonical stored sets (<=6 runs, u64-wide, anchored at 1 or at u64::MAX) x 8 candidates whose endpoints are boundary-biased (1,2,2^63,u64::MAX-k, edges of S +-3, random). Non-trivial = valid candidate against non-empty S; distinct by (S,a,b)",
+        cases,
+        || {
+            (ranges_spec_strategy(6), prop::collection::vec((val_strategy(true), val_strategy(false), prop::bool::weighted(0.9)), 8..=8))
+                .prop_map(|(stored, cands)| Case { stored, cands })
+        },
+        |case, obs| {
+            let s = build_ranges(&case.stored);
+            let r = build_from_model(&s);
+            let ds = digest_of(&s.0);
+            for (a, b, order) in &case.cands {
+                let (mut a, mut b) = (resolve(a, &s, 0), resolve(b, &s, 1));
+                if *order && a > b {
+                    std::mem::swap(&mut a, &mut b);
+                }
+                eval_one(obs, &r, &s, a, b, ds ^ a.rotate_left(21) ^ b.rotate_left(43))?;
+            }
+            Ok(())
+        },
+    );
 }
